@@ -593,6 +593,54 @@ cleanup:
 	return res;
 }
 static int run_async(Env *e, char *out) { return run_async_n(e, out, 1); }
+/* a request that carries a hash AND a configuration request handed to the asynchronous signing service, then the service is run
+ * and everything is released (what comes back is not judged here: the reply script is empty) */
+static int run_asyncc(Env *e, char *out) {
+	int res, k; KSI_AsyncService *as = NULL; KSI_AsyncHandle *h = NULL, *o = NULL; KSI_AggregationReq *req = NULL; KSI_Config *cfg = NULL; KSI_DataHash *ref = NULL; size_t waiting = 0;
+	static char rs[64], ss[64];
+	g_nconn = 0; g_now = 1000; g_poll_ret = 1; g_revents = POLLIN | POLLOUT; g_connect_ok = 1; g_spos = 0; g_slen = 0;
+	res = KSI_SigningAsyncService_new(e->ctx, &as); if (res != KSI_OK) goto cleanup;
+	res = KSI_AsyncService_setEndpoint(as, "ksi+tcp://sim0.host:1234", "anon", e->key); if (res != KSI_OK) goto cleanup;
+	res = KSI_AsyncService_setOption(as, KSI_ASYNC_OPT_REQUEST_CACHE_SIZE, (void *)(size_t)4); if (res != KSI_OK) goto cleanup;
+	res = KSI_AggregationReq_new(e->ctx, &req); if (res != KSI_OK) goto cleanup;
+	res = KSI_Config_new(e->ctx, &cfg); if (res != KSI_OK) goto cleanup;
+	res = KSI_AggregationReq_setConfig(req, cfg); if (res != KSI_OK) goto cleanup;
+	cfg = NULL;
+	ref = KSI_DataHash_ref(e->hsh);
+	res = KSI_AggregationReq_setRequestHash(req, ref); if (res != KSI_OK) goto cleanup;
+	ref = NULL;
+	res = KSI_AsyncAggregationHandle_new(e->ctx, req, &h); if (res != KSI_OK) goto cleanup;
+	req = NULL;
+	res = KSI_AsyncService_addRequest(as, h); if (res != KSI_OK) goto cleanup;
+	h = NULL;
+	for (k = 0; k < 2; k++) {
+		strcpy(rs, "p"); strcpy(ss, "-"); g_rp = rs; g_sp = ss; g_stream = e->b[1]; g_slen = 0;
+		o = NULL; res = KSI_AsyncService_run(as, &o, &waiting); KSI_AsyncHandle_free(o); if (res != KSI_OK) goto cleanup;
+	}
+	put_digest(out, waiting, 1);
+cleanup:
+	KSI_AsyncHandle_free(h); KSI_AggregationReq_free(req); KSI_Config_free(cfg); KSI_DataHash_free(ref);
+	KSI_AsyncService_free(as);
+	for (k = 0; k < g_nconn; k++) free(g_conn[k]);
+	g_nconn = 0;
+	return res;
+}
+/* objects made and released on their own */
+static int run_aar(Env *e, char *out) {
+	KSI_AggregationAuthRec *r = NULL; int res = KSI_AggregationAuthRec_new(e->ctx, &r);
+	if (res == KSI_OK) put_digest(out, 1, 1);
+	if (res != KSI_OK && r != NULL) snprintf(out, 64, "RESULT-WITH-ERROR");
+	KSI_AggregationAuthRec_free(r);
+	return res;
+}
+static int run_ctxn(Env *e, char *out) {
+	KSI_CTX *c = NULL; int res = KSI_CTX_new(&c);
+	(void)e;
+	if (res == KSI_OK) put_digest(out, 1, 1);
+	if (res != KSI_OK && c != NULL) snprintf(out, 64, "RESULT-WITH-ERROR");
+	KSI_CTX_free(c);
+	return res;
+}
 static int run_ha(Env *e, char *out) { return run_async_n(e, out, 2); }
 
 /* block signer: masking, every m-th leaf with metadata, the tree closed, the root signature an aggregator returns for (root, level)
@@ -655,7 +703,7 @@ static const struct op { const char *name; int minargs; int (*setup)(Env *); int
 	{ "lst", 1, su_none, run_lst }, { "tlvp", 1, su_blob, run_tlvp }, { "list", 1, su_none, run_list }, { "tlv", 1, su_blob, run_tlv }, { "el", 1, su_blob, run_el }, { "sig", 1, su_blob, run_sig },
 	{ "ver", 2, su_ver, run_ver }, { "verk", 2, su_ver, run_verk }, { "verg", 2, su_ver, run_verg }, { "areq", 3, su_areq, run_areq }, { "ereq", 3, su_ereq, run_ereq }, { "sign", 5, su_sign, run_sign },
 	{ "ext", 5, su_ext, run_ext }, { "extp", 6, su_ext, run_extp }, { "axh", 1, su_sig, run_axh }, { "tree", 3, su_none, run_tree }, { "build", 2, su_sig, run_build }, { "pubf", 2, su_blob, run_pubf },
-	{ "pubs", 1, su_none, run_pubs }, { "hmac", 3, su_hmac, run_hmac }, { "async", 4, su_async, run_async }, { "ha", 4, su_async, run_ha }, { "bsig", 3, su_none, run_bsig }, { "vcal", 5, su_ext, run_vcal }, { "parts", 1, su_sig, run_parts },
+	{ "pubs", 1, su_none, run_pubs }, { "hmac", 3, su_hmac, run_hmac }, { "async", 4, su_async, run_async }, { "asyncc", 4, su_async, run_asyncc }, { "aar", 0, su_none, run_aar }, { "ctxn", 0, su_none, run_ctxn }, { "ha", 4, su_async, run_ha }, { "bsig", 3, su_none, run_bsig }, { "vcal", 5, su_ext, run_vcal }, { "parts", 1, su_sig, run_parts },
 };
 
 static int g_nopool;      /* swn: the context does not recycle released hash objects (KSI_OPT_DATAHASH_CACHE_SIZE = 0) */
